@@ -175,6 +175,8 @@ func LoadContracts(p *Program) (*ContractSet, error) {
 	cs.GhostMaps["closed"] = &GhostMapDecl{Name: "closed", Key: "ref", Val: "bool"}
 	// sent(ch): number of values the call under verification has sent on ch
 	cs.GhostMaps["sent"] = &GhostMapDecl{Name: "sent", Key: "ref", Val: "int", Zero: true}
+	// recvd(ch): number of receive operations the call has completed on ch
+	cs.GhostMaps["recvd"] = &GhostMapDecl{Name: "recvd", Key: "ref", Val: "int", Zero: true}
 	for _, src := range p.contractSources() {
 		cs.Files = append(cs.Files, src.File)
 		if !src.CommentOnly {
